@@ -366,3 +366,23 @@ func (g *Graph) Returns() []*Vertex {
 	}
 	return out
 }
+
+// CondsAt returns the unexpanded branch conditions (with their value) of the
+// conditional edges every path from the entry to target must take.
+func (g *Graph) CondsAt(target int) []Fact {
+	var out []Fact
+	if target < 0 || !g.Live(target) {
+		return nil
+	}
+	for _, v := range g.V {
+		if len(v.Succ) != 2 || v.Succ[0].Cond == nil || v.Succ[0].To == v.Succ[1].To {
+			continue
+		}
+		for _, e := range v.Succ {
+			if g.EdgeDominates(e, target) {
+				out = append(out, Fact{Expr: e.Cond, Tag: e.Tag, Val: e.Val})
+			}
+		}
+	}
+	return out
+}
